@@ -360,3 +360,8 @@ def check(cx):
     from . import c11
     cx.include(c11, {"C11.4"}, "C13.10", "shared with C11.4: what VACUUM removes goes back to the pager - the removed cell's overflow chain is freed and "
                "the rebalance starts at the leaf the cell was taken from, so emptied leaves are merged and freed (bounded storage)", floor=10)
+
+    # ---- C13.11 (construct shared with C04.1b) ------------------------------------------------------------------------
+    cx.include(c04, {"C04.1b"}, "C13.11", "shared with C04.1b: the snapshot VACUUM works under is built from the complete in-memory Active and "
+               "Aborted sets; abort_all marks the interrupted transactions there only, so a snapshot fed from the persisted bitmap "
+               "takes them for committed and VACUUM removes rows whose DELETE never committed", floor=3)
